@@ -139,6 +139,9 @@ def _item_is_lit(it, code, flags):
     return False
 
 
+_SIMPLE = (C.LITERAL, C.NOT_LITERAL, C.ANY, C.IN, C.CATEGORY)
+
+
 class _M:
     def __init__(self, tree, flags, items):
         self.tree = tree
@@ -151,7 +154,54 @@ class _M:
         if i == len(nodes):
             return k(pos, caps)
         op, av = nodes[i]
+        if op in _SIMPLE:
+            # a maximal run of single-character nodes has no internal choice point: test it as one
+            # condition (one decision instead of one per character)
+            j = i
+            while j < len(nodes) and nodes[j][0] in _SIMPLE:
+                j += 1
+            c = self.run_cond(nodes, i, j, pos)
+            if c is False:
+                return None
+            if c is True or bool(c):
+                return self.seq(nodes, j, pos + (j - i), caps, k)
+            return None
         return self.node(op, av, pos, caps, lambda p, c: self.seq(nodes, i + 1, p, c, k))
+
+    def char_cond(self, op, av, it):
+        flags = self.flags
+        if op == C.LITERAL:
+            return _item_is_lit(it, av, flags)
+        if op == C.NOT_LITERAL:
+            r = _item_is_lit(it, av, flags)
+            return (not r) if isinstance(r, bool) else mk_bool(z3.Not(r.e))
+        if op == C.ANY:
+            return bool(flags & re.S) or it != "\n"
+        if op == C.IN:
+            return _item_in_set(it, av, flags)
+        return _item_in_set(it, [(C.CATEGORY, av)], flags)
+
+    def run_cond(self, nodes, i, j, pos):
+        """condition under which nodes[i:j] (single-character nodes) match at pos"""
+        if pos + (j - i) > self.n:
+            return False
+        cs = []
+        for t in range(i, j):
+            c = self.char_cond(nodes[t][0], nodes[t][1], self.items[pos + t - i])
+            if c is False:
+                return False
+            if c is not True:
+                cs.append(c.e)
+        if not cs:
+            return True
+        return mk_bool(z3.And(*cs))
+
+    def simple_len(self, alt):
+        """length of an alternative made only of single-character nodes, else None"""
+        for op, _ in alt:
+            if op not in _SIMPLE:
+                return None
+        return len(alt)
 
     def node(self, op, av, pos, caps, k):
         items, n, flags = self.items, self.n, self.flags
@@ -176,10 +226,33 @@ class _M:
                 return k(pos + 1, caps)
             return None
         if op == C.BRANCH:
-            for alt in av[1]:
-                r = self.seq(alt, 0, pos, caps, k)
-                if r is not None:
-                    return r
+            alts = av[1]
+            a = 0
+            while a < len(alts):
+                L = self.simple_len(alts[a])
+                if L is None:
+                    r = self.seq(alts[a], 0, pos, caps, k)
+                    if r is not None:
+                        return r
+                    a += 1
+                    continue
+                # consecutive simple alternatives of one length end at the same position with the
+                # same captures: which of them matched cannot matter to the continuation
+                b = a
+                conds = []
+                while b < len(alts) and self.simple_len(alts[b]) == L:
+                    conds.append(self.run_cond(alts[b], 0, L, pos))
+                    b += 1
+                if any(c is True for c in conds):
+                    c = True
+                else:
+                    cs = [c.e for c in conds if c is not False]
+                    c = mk_bool(z3.Or(*cs)) if cs else False
+                if c is True or (c is not False and bool(c)):
+                    r = k(pos + L, caps)
+                    if r is not None:
+                        return r
+                a = b
             return None
         if op == C.SUBPATTERN:
             group, add, dele, p = av
